@@ -13,7 +13,8 @@
 //!                                      t|p = Err, hash:<id> = another block's data, pow = a header failing PoW, height|work = claimed
 //!                                      height / chainwork off by one, merkle = full block with a wrong merkle root. The model gets the RAW
 //!                                      answer and must itself refuse it (translated Validate layer + check_builds_on).
-//!   poll <fingerprint>                 => "<common|better|worse> <tip|-> <0|1> r<requests the source saw> | D <id> <h> C <id> <h> …"
+//!   poll <fingerprint>                 => "<common|better|worse> <tip|-> <0|1> r<requests the source saw> | D <id> <h> C <id> <h> … | cache <ids in the SpvClient's header cache afterwards>"
+//!                                      (the listener is the TUPLE adapter over two recording components; oracle: both see the same chain, 0 before 1)
 //!                                      or "err <t|p> r<requests>" with the BlockSourceErrorKind (transient / persistent) of the returned error
 //!   init <id:height:p1,p2,-,…>…        => "ok <best> r<requests> cache <ids…> | <listener 0 notifs> | …"  or "err r<requests> | …"
 use ldk_verif_harness::common::*;
@@ -177,22 +178,36 @@ impl<'a> BlockSource for Source<'a> {
 #[derive(Clone, Copy, Debug)]
 enum Ev { Conn(usize, u32, bool), Disc(usize, u32) }
 
-struct RecListener<'a> { tree: &'a Tree, evs: Mutex<Vec<Ev>> }
+/// global delivery counter: the order in which notifications reach the components of a tuple listener
+static SEQ: std::sync::atomic::AtomicU64 = std::sync::atomic::AtomicU64::new(0);
+fn next_seq() -> u64 { SEQ.fetch_add(1, std::sync::atomic::Ordering::SeqCst) }
+
+struct RecListener<'a> { tree: &'a Tree, evs: Mutex<Vec<(u64, Ev)>> }
 impl<'a> RecListener<'a> {
 	fn new(tree: &'a Tree) -> Self { RecListener { tree, evs: Mutex::new(vec![]) } }
-	fn take(&self) -> Vec<Ev> { std::mem::take(&mut *self.evs.lock().unwrap()) }
+	fn take_seq(&self) -> Vec<(u64, Ev)> { std::mem::take(&mut *self.evs.lock().unwrap()) }
+	fn take(&self) -> Vec<Ev> { self.take_seq().into_iter().map(|x| x.1).collect() }
 	fn id(&self, h: &BlockHash) -> usize { self.tree.by_hash.get(h).copied().unwrap_or(999_999) }
 }
 impl<'a> chain::Listen for RecListener<'a> {
 	fn filtered_block_connected(&self, header: &Header, _txdata: &chain::transaction::TransactionData, height: u32) {
-		self.evs.lock().unwrap().push(Ev::Conn(self.id(&header.block_hash()), height, false));
+		self.evs.lock().unwrap().push((next_seq(), Ev::Conn(self.id(&header.block_hash()), height, false)));
 	}
 	fn block_connected(&self, block: &Block, height: u32) {
-		self.evs.lock().unwrap().push(Ev::Conn(self.id(&block.header.block_hash()), height, true));
+		self.evs.lock().unwrap().push((next_seq(), Ev::Conn(self.id(&block.header.block_hash()), height, true)));
 	}
 	fn blocks_disconnected(&self, fork_point: BlockLocator) {
-		self.evs.lock().unwrap().push(Ev::Disc(self.id(&fork_point.block_hash), fork_point.height));
+		self.evs.lock().unwrap().push((next_seq(), Ev::Disc(self.id(&fork_point.block_hash), fork_point.height)));
 	}
+}
+/// the listener the SpvClient of this harness notifies: the TUPLE adapter `impl Listen for (T, U)` of lightning/src/chain/mod.rs
+/// over two recording components (as the block-sync docs recommend for ChainMonitor + ChannelManager)
+type Pair<'s, 't> = (&'s RecListener<'t>, &'s RecListener<'t>);
+
+/// header cache as the answer line shows it: sorted ids (a count and checksum when there are many)
+fn show_cache(t: &Tree, cache: &HeaderCache) -> String {
+	let ids: Vec<usize> = t.blocks.iter().filter(|b| cache.look_up(&b.hash).is_some()).map(|b| b.id).collect();
+	if ids.len() <= 48 { ids.iter().map(|i| i.to_string()).collect::<Vec<_>>().join(" ") } else { format!("n{} s{}", ids.len(), ids.iter().sum::<usize>()) }
 }
 
 fn show_evs(evs: &[Ev]) -> String {
@@ -277,10 +292,10 @@ fn sched_line(sched: &BTreeMap<usize, Fail>, triggered: &[(usize, String, String
 	format!("sched{}", sched.keys().map(|k| match triggered.iter().find(|t| t.0 == *k) { Some(t) => format!(" {}:{}", k, t.2), None => format!(" {}:t", k) }).collect::<String>())
 }
 
-struct Stats { lower_work_after_interrupt: u64, lower_work_example: Option<String>, max_fork_depth: usize, cache_miss_walks: u64 }
+struct Stats { lower_work_after_interrupt: u64, lower_work_example: Option<String>, max_fork_depth: usize, cache_miss_walks: u64, tuple_c: Option<String>, tuple_d: Option<String> }
 
 /// a sequence of polls of one SpvClient against a tree whose best tip moves between polls
-fn run_polls<'s, 't>(c: &mut Case, g: &mut Gen, t: &'t Tree, client: &mut SpvClient<ChainPoller<&'s Source<'t>, Source<'t>>, &'s RecListener<'t>>, src: &'s Source<'t>, listener: &'s RecListener<'t>, chain: &mut Vec<usize>, n_polls: u64, stats: &mut Stats, fail_p: u64, bitcoin: bool) {
+fn run_polls<'s, 't>(c: &mut Case, g: &mut Gen, t: &'t Tree, client: &mut SpvClient<ChainPoller<&'s Source<'t>, Source<'t>>, &'s Pair<'s, 't>>, src: &'s Source<'t>, pair: &'s Pair<'s, 't>, chain: &mut Vec<usize>, n_polls: u64, stats: &mut Stats, fail_p: u64, bitcoin: bool) {
 	let all: Vec<usize> = t.blocks.iter().map(|b| b.id).collect();
 	let tips = t.tips();
 	for _ in 0..n_polls {
@@ -298,7 +313,8 @@ fn run_polls<'s, 't>(c: &mut Case, g: &mut Gen, t: &'t Tree, client: &mut SpvCli
 		c.dir(format!("hidden{}", hidden.iter().map(|x| format!(" {}", x)).collect::<String>()));
 		{ let mut st = src.st.lock().unwrap(); st.req = 0; st.sched = sched.clone(); st.hidden = hidden.clone(); st.best = best; st.triggered.clear(); st.init_mode = false; st.last_was_best = false; }
 		let r = guarded(AssertUnwindSafe(|| block_on(client.poll_best_tip())));
-		let evs = listener.take();
+		let (sq0, sq1) = (pair.0.take_seq(), pair.1.take_seq());
+		let evs: Vec<Ev> = sq0.iter().map(|x| x.1).collect();
 		let (triggered3, nreq) = { let st = src.st.lock().unwrap(); (st.triggered.clone(), st.req) };
 		c.dir(sched_line(&sched, &triggered3));
 		let triggered: Vec<(usize, String)> = triggered3.iter().map(|t| (t.0, t.1.clone())).collect();
@@ -348,7 +364,30 @@ fn run_polls<'s, 't>(c: &mut Case, g: &mut Gen, t: &'t Tree, client: &mut SpvCli
 		if !hidden.is_empty() { *c.rec.classes.entry("poll+hidden-blocks".to_string()).or_insert(0) += 1; }
 		if evs.iter().any(|e| matches!(e, Ev::Conn(_, _, true))) { *c.rec.classes.entry("poll+full-block-connected".to_string()).or_insert(0) += 1; }
 		if evs.iter().any(|e| matches!(e, Ev::Conn(_, _, false))) { *c.rec.classes.entry("poll+header-only-connected".to_string()).or_insert(0) += 1; }
-		let ans = format!("{} r{} | {}", head, nreq, show_evs(&evs));
+		// tuple adapter: both components must see the same single chain, every notification reaching component 0 and then
+		// component 1 before the next one is delivered (on connect and on disconnect)
+		{
+			let evs1: Vec<Ev> = sq1.iter().map(|x| x.1).collect();
+			if show_evs(&evs) != show_evs(&evs1) { c.rec.oracle_fail(describe(&format!("tuple listener: the two components saw different notifications: [{}] vs [{}]", show_evs(&evs), show_evs(&evs1)), c)); }
+			else {
+				for i in 0..sq0.len() {
+					let ok = sq0[i].0 < sq1[i].0 && (i + 1 >= sq0.len() || sq1[i].0 < sq0[i + 1].0);
+					if !ok { c.rec.oracle_fail(describe(&format!("tuple listener: notification {} was not delivered to component 0 then component 1 before the next one", i), c)); break; }
+				}
+				// observed component order of the first connect / disconnect (compared with the translated order by the `tuple` op)
+				for i in 0..sq0.len() {
+					let ord = if sq0[i].0 < sq1[i].0 { "0 1" } else { "1 0" }.to_string();
+					match sq0[i].1 { Ev::Conn(..) => { if stats.tuple_c.is_none() { stats.tuple_c = Some(ord); } }, Ev::Disc(..) => { if stats.tuple_d.is_none() { stats.tuple_d = Some(ord); } } }
+				}
+				if evs.iter().any(|e| matches!(e, Ev::Disc(..))) { *c.rec.classes.entry("poll+tuple-listener-disconnect-both".to_string()).or_insert(0) += 1; }
+				if evs.iter().any(|e| matches!(e, Ev::Conn(..))) { *c.rec.classes.entry("poll+tuple-listener-connect-both".to_string()).or_insert(0) += 1; }
+			}
+		}
+		let (cache_now, tip_now) = client.verif_cache_and_tip();
+		// the cache is what the next poll's look_up_previous_header trusts without check_builds_on: every entry must be a real header under its own hash
+		for b in &t.blocks { if let Some(h) = cache_now.look_up(&b.hash) { if h.height != b.height || work_u128(h.chainwork) != b.work || h.header.block_hash() != b.hash { c.rec.oracle_fail(describe(&format!("header cache holds a wrong header for block {}", b.id), c)); } } }
+		if t.by_hash.get(&tip_now.header.block_hash()).copied() != Some(*chain.last().unwrap()) { c.rec.oracle_fail(describe("chain_tip is not where the listener is", c)); }
+		let ans = format!("{} r{} | {} | cache {}", head, nreq, show_evs(&evs), show_cache(t, cache_now));
 		c.rec.case(&op, ans.trim_end(), &class, !evs.is_empty() || !triggered.is_empty());
 		c.fp = c.fp.wrapping_mul(0x100000001b3) ^ fnv64(&ans);
 	}
@@ -490,20 +529,22 @@ fn one_case(rec: &mut Rec, g: &mut Gen, t: &Tree, stats: &mut Stats, polls: u64,
 		// SpvClient from a given tip with an empty cache (fresh start / restart)
 		let start = force_start.unwrap_or_else(|| if g.rng.chance(1, 2) { *g.rng.pick(&t.tips()) } else { *g.rng.pick(&all) });
 		c.dir(format!("client {}", start));
-		let listener = RecListener::new(t);
-		let mut client = SpvClient::new(t.validated(start), ChainPoller::new(&src, network), HeaderCache::new(), &listener);
+		let (listener, listener2) = (RecListener::new(t), RecListener::new(t));
+		let pair: Pair = (&listener, &listener2);
+		let mut client = SpvClient::new(t.validated(start), ChainPoller::new(&src, network), HeaderCache::new(), &pair);
 		let mut chain = t.path(start);
-		run_polls(&mut c, g, t, &mut client, &src, &listener, &mut chain, polls, stats, fail_p, bitcoin);
+		run_polls(&mut c, g, t, &mut client, &src, &pair, &mut chain, polls, stats, fail_p, bitcoin);
 	} else {
 		let n_init = g.rng.range(1, 2);
 		let mut last = None;
 		for _ in 0..n_init { last = run_init(&mut c, g, t, &src, stats, fail_p, network); }
 		if let Some((cache, hdr, bid)) = last {
 			c.dir("clientinit".into());
-			let listener = RecListener::new(t);
-			let mut client = SpvClient::new(hdr, ChainPoller::new(&src, network), cache, &listener);
+			let (listener, listener2) = (RecListener::new(t), RecListener::new(t));
+			let pair: Pair = (&listener, &listener2);
+			let mut client = SpvClient::new(hdr, ChainPoller::new(&src, network), cache, &pair);
 			let mut chain = t.path(bid);
-			run_polls(&mut c, g, t, &mut client, &src, &listener, &mut chain, polls.min(4), stats, fail_p, bitcoin);
+			run_polls(&mut c, g, t, &mut client, &src, &pair, &mut chain, polls.min(4), stats, fail_p, bitcoin);
 		}
 	}
 }
@@ -513,7 +554,7 @@ fn main() {
 	let mut rec = Rec::new(&args.out, "c20");
 	let mut rng = Rng::new(args.seed);
 	let mut g = Gen { rng: &mut rng };
-	let mut stats = Stats { lower_work_after_interrupt: 0, lower_work_example: None, max_fork_depth: 0, cache_miss_walks: 0 };
+	let mut stats = Stats { lower_work_after_interrupt: 0, lower_work_example: None, max_fork_depth: 0, cache_miss_walks: 0, tuple_c: None, tuple_d: None };
 	let limit = HEADER_CACHE_LIMIT as u64;
 	let (n_small, n_medium, n_deep) = if args.thorough { (400_000 * args.scale, 8_000 * args.scale, 300 * args.scale) } else { (24_000 * args.scale, 1_000 * args.scale, 30 * args.scale) };
 	let max_depth = if args.thorough { 40 } else { 12 };
@@ -551,22 +592,23 @@ fn main() {
 		let src = Source::new(&t);
 		c.dir("net 0".into());
 		c.dir(format!("client {}", stem));
-		let listener = RecListener::new(&t);
-		let mut client = SpvClient::new(t.validated(stem), ChainPoller::new(&src, Network::Regtest), HeaderCache::new(), &listener);
+		let (listener, listener2) = (RecListener::new(&t), RecListener::new(&t));
+		let pair: Pair = (&listener, &listener2);
+		let mut client = SpvClient::new(t.validated(stem), ChainPoller::new(&src, Network::Regtest), HeaderCache::new(), &pair);
 		let mut chain = t.path(stem);
 		// deterministic first poll to A without failures, then random polls (B is a tip, A is a tip)
 		{
 			c.dir(format!("best {}", a_tip)); c.dir("hidden".into()); c.dir("sched".into());
 			let mut st = src.st.lock().unwrap(); st.req = 0; st.sched.clear(); st.hidden.clear(); st.best = a_tip; st.triggered.clear(); drop(st);
 			let r = block_on(client.poll_best_tip());
-			let evs = listener.take();
+			let evs = listener.take(); let _ = listener2.take();
 			let head = match &r { Ok((ChainTip::Better(h), b)) => format!("better {} {}", t.by_hash[&h.header.block_hash()], *b as u8), _ => "unexpected".to_string() };
 			if let Err(e) = fold_chain(&t, &mut chain, &evs) { c.rec.oracle_fail(format!("deep case: {}", e)); }
-			let ans = format!("{} r{} | {}", head, src.st.lock().unwrap().req, show_evs(&evs));
+			let ans = format!("{} r{} | {} | cache {}", head, src.st.lock().unwrap().req, show_evs(&evs), show_cache(&t, client.verif_cache_and_tip().0));
 			let op = format!("poll {:x}", c.fp);
 			c.rec.case(&op, ans.trim_end(), "poll:better:long-extension", true);
 		}
-		run_polls(&mut c, &mut g, &t, &mut client, &src, &listener, &mut chain, 4, &mut stats, 5, false);
+		run_polls(&mut c, &mut g, &t, &mut client, &src, &pair, &mut chain, 4, &mut stats, 5, false);
 	}
 	// (4) Network::Bitcoin across a retarget height: check_builds_on's difficulty rules (equal bits except at multiples
 	//     of 2016, there only within the 4x window) decide which branches the poller accepts
@@ -593,6 +635,10 @@ fn main() {
 		one_case(&mut rec, &mut g, &t, &mut stats, 5, 3, Some(stem), true);
 	}
 	let probe = probe_tip_claims(&mut g);
+	if let (Some(tc), Some(td)) = (&stats.tuple_c, &stats.tuple_d) {
+		rec.directive("tree");
+		rec.case("tuple", &format!("C {} D {}", tc, td), "tuple:component-order", true);
+	}
 	rec.notes.insert("probe_tip_claims_not_checked".into(), probe);
 	rec.notes.insert("rule".into(), "every poll/init op is distinct by the fingerprint of its whole case history (tree, tips, schedules, earlier answers); non-trivial = the listener was notified or a scheduled source failure was hit".into());
 	rec.notes.insert("max_fork_depth".into(), format!("{} (HEADER_CACHE_LIMIT = {})", stats.max_fork_depth, HEADER_CACHE_LIMIT));
